@@ -354,6 +354,15 @@ def crystal_worker(part, job):
     tag = "crystal:%s:L=%d" % (api, L)
     part.ev()
     part.tr()
+    # after an error: the rotated crystal is first asked for descriptors it refuses (an unknown surface property, a radius nothing fits in,
+    # a negative degree); each request raises, and the descriptors asked for afterwards from the same object are compared as usual
+    for refused in (lambda: c1.molecular_shape_descriptors(l_max=L, with_property="no_such_property"), lambda: c1.molecular_shape_descriptors(l_max=L, radius=0.3),
+                    lambda: c1.atomic_shape_descriptors(l_max=-2), lambda: c1.atom_group_shape_descriptors([0, 10 ** 6], l_max=L)):
+        try:
+            refused()
+            part.count("refused_call_answered")
+        except Exception:
+            pass
     try:
         if api == "molecular":
             d0, d1 = c0.molecular_shape_descriptors(l_max=L), c1.molecular_shape_descriptors(l_max=L)
